@@ -209,7 +209,23 @@ Record getinfo := mkGet { g_tid : tid; g_cell : option dur; g_upd : list dur; g_
 
 (* per Get: every build-result write carries the expected TTL, every earlier write (the stale re-store)
    carries UpdateTTL; a SkipRead Get invokes the builder and, if it succeeds, stores the result *)
-Definition c06_get_ok (uttl : dur) (l : list fev) (g : getinfo) : bool :=
+Definition fev_tid (e : fev) : tid :=
+  match e with
+  | FRead t _ _ | FWrite t _ _ _ _ _ | FBuildStart t _ | FBuildEnd t _ _ | FStat t _ | FLog t _
+  | FErrWrite t _ _ _ | FErrHit t _ _ | FReturn t _ _ _ => t
+  end.
+
+(* the part of the trace from the first event of thread [t] on: what was in flight while that Get ran *)
+Fixpoint since_first (t : tid) (l : list fev) : list fev :=
+  match l with
+  | [] => []
+  | e :: r => if (fev_tid e =? t)%N then l else since_first t r
+  end.
+
+Definition c06_get_ok (uttl : dur) (l : list fev) (before : list fev) (g : getinfo) : bool :=
+  (* [before]: what had been observed when this Get was called *)
+  (* thread t' (a foreground Get) had already returned — hence released its key lock — when this Get started *)
+  let gone t' := existsb (is_return_of t') before in
   let mine := List.filter (fun e => match e with
       | FWrite t _ _ _ _ _ | FBuildEnd t _ _ | FBuildStart t _ => (t =? g_tid g)%N || (t =? bg_tid (g_tid g))%N
       | _ => false end) l in
@@ -235,11 +251,18 @@ Definition c06_get_ok (uttl : dur) (l : list fev) (g : getinfo) : bool :=
            | Some (_, FReturn _ k v None) =>
                (* the owner's result: a build, or (SyncRead) the value the owner read inside the key lock *)
                existsb (fun e => match e with
-                                 | FBuildEnd _ k' (inl v') => bool_decide (k = k') && (v =? v')
-                                 | FRead t' k' (RHit v') => negb (t' =? g_tid g)%N && bool_decide (k = k') && (v =? v')
+                                 | FBuildEnd t' k' (inl v') => bool_decide (k = k') && (v =? v') && negb (gone t')
+                                 | FRead t' k' (RHit v') => negb (t' =? g_tid g)%N && bool_decide (k = k') && (v =? v') && negb (gone t')
                                  | _ => false end) l
            | Some (_, FReturn _ k _ (Some (EOther n))) =>
-               existsb (fun e => match e with FBuildEnd _ k' (inr n') => bool_decide (k = k') && (n =? n') | _ => false end) l
+               (* the error of a build whose owner still held the key lock when this Get started, not one replayed
+                  from the failure cache (a background owner leaves no return event: such a build is accepted) *)
+               existsb (fun e => match e with
+                                 | FBuildEnd t' k' (inr n') => bool_decide (k = k') && (n =? n') && negb (gone t')
+                                 (* ... or the result of the Get that held the key lock (e.g. a cached failure it replayed) *)
+                                 | FReturn t' k' _ (Some (EOther n')) =>
+                                     negb (t' =? g_tid g)%N && bool_decide (k = k') && (n =? n') && negb (gone t')
+                                 | _ => false end) l
            | _ => false
            end)
    else true).
